@@ -17,21 +17,33 @@ Restart == {Cfg(Old3, 1, Unl, {"FAILED"}, {}, {}), Cfg(Old3, 2, Unl, {}, {9}, {}
 Restart4 == {Cfg(Old4, 1, Unl, {"FAILED"}, {}, {}), Cfg(Old4, 2, Unl, {}, {8}, {}), Cfg(Old4, 1, Unl, {"FAILED"}, {9}, {}),
              Cfg(Old4, 2, 2, {}, {8, 9}, {})}
 
-QuickConfigs == Plain(3, {1, 2}, {1, 2, Unl}) \cup Failing \cup Restart
-CrashConfigs == Plain(3, {1, 2}, {Unl}) \cup {Cfg(Fresh(3), 1, 1, {}, {}, {})} \cup {Cfg(Old3, 1, Unl, {"FAILED"}, {}, {})}
-ThoroughConfigs == Plain(4, {1, 2, 3}, {1, 2, Unl}) \cup Failing \cup Restart \cup Restart4
-P3Configs == {Cfg(Fresh(3), 1, Unl, {}, {}, {}), Cfg(Fresh(3), 2, Unl, {}, {}, {}), Cfg(Fresh(3), 1, 1, {}, {}, {})}
-P3QuickConfigs == {Cfg(Fresh(1), 1, Unl, {}, {}, {})}
-T2Configs == Plain(3, {1, 2}, {Unl}) \cup {Cfg(Fresh(3), 1, 2, {}, {}, {}), Cfg(Old3, 1, Unl, {"FAILED"}, {}, {})}
+\* a FINISHED earlier run: no AVAILABLE job at start-up; only a restart pattern can re-open anything
+Done3 == <<Rec("COMPLETE", 9, 9), Rec("FAILED", 9, 9), Rec("ASSIGNED", 8, 0)>>
+Done2F == <<Rec("FAILED", 9, 9), Rec("FAILED", 8, 8)>>
+Finished == {Cfg(Done3, 1, Unl, {"FAILED"}, {}, {}),       \* stat(FAILED)
+             Cfg(Done3, 2, Unl, {}, {9}, {}),              \* host(9): a COMPLETE and a FAILED job
+             Cfg(Done3, 1, Unl, {"FAILED"}, {8}, {}),      \* both
+             Cfg(Done3, 2, Unl, {}, {7}, {}),              \* a pattern that matches nothing
+             Cfg(Done3, 1, Unl, {}, {}, {}),               \* no pattern: nothing to do
+             Cfg(Done2F, 1, Unl, {"FAILED"}, {}, {}),      \* every job re-opened (a job failing AGAIN under stat(FAILED) is re-opened by the next process: excluded)
+             Cfg(Done2F, 2, 1, {"FAILED"}, {}, {})}        \* maxjobs stops the processes
+FinishedSmall == {Cfg(Done3, 1, Unl, {"FAILED"}, {8}, {}), Cfg(Done3, 2, Unl, {}, {9}, {}), Cfg(Done3, 1, Unl, {}, {7}, {})}
+QuickConfigs == Plain(3, {1, 2}, {1, 2, Unl}) \cup Failing \cup Restart \cup Finished
+CrashConfigs == Plain(3, {1, 2}, {Unl}) \cup {Cfg(Fresh(3), 1, 1, {}, {}, {})} \cup {Cfg(Old3, 1, Unl, {"FAILED"}, {}, {})} \cup FinishedSmall
+ThoroughConfigs == Plain(4, {1, 2, 3}, {1, 2, Unl}) \cup Failing \cup Restart \cup Restart4 \cup Finished
+P3Configs == {Cfg(Fresh(3), 1, Unl, {}, {}, {}), Cfg(Fresh(3), 2, Unl, {}, {}, {}), Cfg(Fresh(3), 1, 1, {}, {}, {}),
+              Cfg(Done3, 1, Unl, {"FAILED"}, {8}, {})}
+P3QuickConfigs == {Cfg(Fresh(1), 1, Unl, {}, {}, {}), Cfg(<<Rec("FAILED", 9, 9)>>, 1, Unl, {"FAILED"}, {}, {})}
+T2Configs == Plain(3, {1, 2}, {Unl}) \cup {Cfg(Fresh(3), 1, 2, {}, {}, {}), Cfg(Old3, 1, Unl, {"FAILED"}, {}, {})} \cup FinishedSmall
 DemoConfigs == {Cfg(Fresh(2), 1, Unl, {}, {}, {})}
 GraphQuickConfigs == {Cfg(Fresh(1), 1, Unl, {}, {}, {})}
 GraphThoroughConfigs == {Cfg(Fresh(2), 1, Unl, {}, {}, {}), Cfg(Fresh(2), 2, Unl, {}, {}, {})}
-SimConfigs == Plain(4, {1, 2, 3}, {1, 2, Unl}) \cup Failing \cup Restart \cup Restart4
-CrashThoroughConfigs == Plain(3, {1, 2}, {Unl, 2}) \cup Restart \cup {Cfg(Fresh(4), 2, Unl, {}, {}, {})}
-T2QuickConfigs == {Cfg(Fresh(2), 1, Unl, {}, {}, {}), Cfg(Fresh(2), 2, Unl, {}, {}, {})}
-SimQuickConfigs == Plain(3, {1, 2}, {2, Unl}) \cup Failing \cup Restart
+SimConfigs == Plain(4, {1, 2, 3}, {1, 2, Unl}) \cup Failing \cup Restart \cup Restart4 \cup Finished
+CrashThoroughConfigs == Plain(3, {1, 2}, {Unl, 2}) \cup Restart \cup Finished \cup {Cfg(Fresh(4), 2, Unl, {}, {}, {})}
+T2QuickConfigs == {Cfg(Fresh(2), 1, Unl, {}, {}, {}), Cfg(Fresh(2), 2, Unl, {}, {}, {}), Cfg(Done3, 1, Unl, {"FAILED"}, {8}, {})}
+SimQuickConfigs == Plain(3, {1, 2}, {2, Unl}) \cup Failing \cup Restart \cup Finished
 AnyTime == {{}}
 OneCrash == {{k} : k \in 2..70}
 TwoCrashes == {{k, k + d} : k \in 2..60, d \in {1, 2, 5, 11, 23}} \cup OneCrash \cup {{1000}}
-EmitCrashConfigs == Plain(2, {1, 2}, {Unl}) \cup {Cfg(Fresh(3), 1, Unl, {}, {}, {}), Cfg(Old3, 1, Unl, {"FAILED"}, {}, {})}
+EmitCrashConfigs == Plain(2, {1, 2}, {Unl}) \cup {Cfg(Fresh(3), 1, Unl, {}, {}, {}), Cfg(Old3, 1, Unl, {"FAILED"}, {}, {})} \cup FinishedSmall
 ====
